@@ -168,7 +168,7 @@ func findFunctionCallViolation(
 	case *ast.Ident:
 		// Direct function call: CreateMockData()
 		funcName := fun.Name
-		if isPackageLevelFunc(ctx, fun) && ctx.testOnlyFuncs.Match(*ctx.currentPkgPath, funcName, funcName) {
+		if pkgPath, ok := packageLevelFuncPkg(ctx, fun); ok && ctx.testOnlyFuncs.Match(pkgPath, funcName, funcName) {
 			return &TestOnlyViolation{
 				Pos:         call.Pos(),
 				TestOnlyObj: funcName,
@@ -223,14 +223,21 @@ func findFunctionCallViolation(
 	return nil
 }
 
-// isPackageLevelFunc reports whether ident refers to a function declared at package level
-// of the current package (and not to a local variable or parameter with the same name)
-func isPackageLevelFunc(ctx *testOnlyContext, ident *ast.Ident) bool {
+// packageLevelFuncPkg returns the import path of the package declaring the package-level
+// function that ident refers to: the current package or, for an identifier made visible
+// by a dot import (import . "pkg"), the imported one. ok is false if ident is not a
+// package-level function (a local variable or parameter holding a func value, a type
+// conversion, a builtin, ...), so that a local name shadowing a @testonly function is
+// never reported.
+func packageLevelFuncPkg(ctx *testOnlyContext, ident *ast.Ident) (pkgPath string, ok bool) {
 	if ctx.pass.TypesInfo == nil {
-		return true
+		return *ctx.currentPkgPath, true
 	}
-	fn, ok := ctx.pass.TypesInfo.Uses[ident].(*types.Func)
-	return ok && fn.Pkg() == ctx.pass.Pkg && fn.Parent() == ctx.pass.Pkg.Scope()
+	fn, isFunc := ctx.pass.TypesInfo.Uses[ident].(*types.Func)
+	if !isFunc || fn.Pkg() == nil || fn.Parent() != fn.Pkg().Scope() {
+		return "", false
+	}
+	return fn.Pkg().Path(), true
 }
 
 // findTypeLiteralViolation checks composite literals for @testonly types
